@@ -109,8 +109,8 @@ def check_c17(prop, tier, seed, work, t0):
         raise vfw.Inconclusive("C17: " + "; ".join(probe_msgs))
 
     # ---- 2. runs.  trials per overload: quick ~2000 (prod) + 2000 (prod512) + sanitizer slices; thorough ~10^6 in total
-    n_prod = 1000000 if th else 2000
-    n_asan = 100000 if th else 2000
+    n_prod = 3000000 if th else 2000
+    n_asan = 300000 if th else 2000
     res = vfw.Results()
     tmo = 7200 if th else 1500
     res.merge(vfw.run_shards(work, bins["w17-prod"], prop, tier, seed, NCPU, ["--part", "wrappers", "--trials", str(n_prod)], tag="prod", timeout=tmo))
